@@ -325,6 +325,61 @@ def _draw_nodes(g):
       and unparse(x.args[0]) == 'self._it' for x in cfgm.node_exprs(n))]
 
 
+def pre_counted(g, nx) -> bool:
+  """Every normal way into the draw `nx` comes straight from an `_index += 1`."""
+  preds = [a for a in g.nodes for b, lab in a.succ if b is nx and lab not in ('exc', 'close')]
+  return bool(preds) and all(_is_inc(a) for a in preds)
+
+
+def draw_balance(g, nexts):
+  """Abstract interpretation of b = (#increments of _index) - (#elements drawn) along the normal paths.
+
+  Counting an element right AFTER drawing it keeps b in {-1, 0}, counting it right BEFORE in {0, +1}; any other value
+  means an element drawn without being counted or counted twice, and every normal exit needs b == 0. Returns
+  (entry states per node, [(node, problem)])."""
+  draws = set(nexts)
+  states: dict = {n: set() for n in g.nodes}
+  states[g.entry] = {0}
+  problems = []
+  seen_prob = set()
+  work = [g.entry]
+  while work:
+    n = work.pop()
+    for s_, lab in n.succ:
+      if lab in ('exc', 'close'):
+        continue
+      out = set()
+      for b in states[n]:
+        nb = b
+        if _is_inc(n):
+          nb = b + 1
+        elif n in draws and not (n.kind == 'for_iter' and lab != 'true'):
+          nb = b - 1
+        if nb < -1 or nb > 1:
+          if (n, nb) not in seen_prob:
+            seen_prob.add((n, nb))
+            problems.append((n, 'an element is consumed without advancing the recorded index' if nb < 0 else
+                             'the index is incremented more than once per consumed element'))
+          continue
+        out.add(nb)
+      if s_ is g.exit_ret:
+        for nb in out:
+          if nb != 0 and (n, 'exit', nb) not in seen_prob:
+            seen_prob.add((n, 'exit', nb))
+            problems.append((n, 'an element is consumed without advancing the recorded index' if nb < 0 else
+                             'the index is incremented more than once per consumed element'))
+        continue
+      if not out <= states[s_]:
+        states[s_] |= out
+        work.append(s_)
+  return states, problems
+
+
+def pre_counted_at(states, nx) -> bool:
+  """The element `nx` draws has been counted before the draw on every path (a failing draw is counted too)."""
+  return bool(states.get(nx)) and states[nx] <= {1}
+
+
 def draw_helpers(repo, clsname: str) -> set[str]:
   """Methods of the iterator class that draw ONE element and count it: on every normal path exactly one
   next(self._it) followed by exactly one `self._index += 1` (a callee summary: a call of such a helper is a
@@ -380,39 +435,17 @@ def r4(ctx: Ctx):
     paired = _helper_calls(g, helpers)
     if not nexts and not paired:
       raise AnalysisError(f'{rule}: {qn} has no next(self._it)')
+    states, problems = draw_balance(g, nexts)
+    for nd_, msg in problems:
+      ctx.fail(rule, fi, nd_.ast if nd_.ast is not None else fi.node, f'{qn}: {msg}: checkpoints and round-robin'
+               ' membership drift from the real position')
+    bad_nodes = {nd_ for nd_, _ in problems}
     for pc in paired:
-      reach = g.reachable([s_ for s_, lab in pc.succ if lab not in ('exc', 'close')],
-                          avoid=lambda n: n in nexts or n in paired or n is g.exit_ret, edge_ok=cfgm.only_normal, include_src=True)
-      if any(_is_inc(n) for n in reach):
-        ctx.fail(rule, fi, pc.ast, f'{qn}: the index is incremented again after a counting draw `{pc.text()[:40]}`: checkpoints'
-                 ' and round-robin membership drift from the real position')
-      else:
+      if pc not in bad_nodes:
         ctx.ok(rule, fi, f'{pc.text()[:40]} draws and counts one element (helper summary)', pc.ast)
-    inc = lambda n: n.kind == 'stmt' and isinstance(n.ast, ast.AugAssign) and (
-        is_self_attr(n.ast.target, '_index') and isinstance(n.ast.op, ast.Add)
-        and unparse(n.ast.value) == '1')
     for nx in nexts:
-      starts = [s for s, lab in nx.succ if lab not in ('exc', 'close')
-                and not (nx.kind == 'for_iter' and lab != 'true')]
-      if not starts:
-        raise AnalysisError(f'{rule}: {qn}: next() has no normal successor')
-      bad = None
-      for st in starts:
-        if inc(st):
-          # exactly one: no second increment before the next consumption/exit
-          reach = g.reachable([st], avoid=lambda n: n in nexts or n is g.exit_ret,
-                              edge_ok=cfgm.only_normal)
-          if any(inc(n) for n in reach if n is not st):
-            bad = 'the index is incremented more than once per consumed element'
-          continue
-        w = g.must_pass(st, [g.exit_ret] + nexts, inc, cfgm.only_normal)
-        if w is not None or st is g.exit_ret or st in nexts:
-          bad = 'an element is consumed without advancing the recorded index'
-      if bad:
-        ctx.fail(rule, fi, nx.ast, f'{qn}: {bad}: checkpoints and round-robin'
-                 ' membership drift from the real position')
-      else:
-        ctx.ok(rule, fi, f'{nx.text()} paired with _index += 1', nx.ast)
+      if nx not in bad_nodes and not problems:
+        ctx.ok(rule, fi, f'{nx.text()} paired with exactly one _index += 1', nx.ast)
   fi = repo.func(IO, 'DataIterator.__next__')
   names = {}
   for x in walk_no_nested(fi.node):
@@ -1049,6 +1082,10 @@ from mlmverif.selfcheck import B, OK  # noqa: E402
 
 _F = 'chainables/io.py'
 VARIANTS = [
+    OK('data-iterator-counts-before-drawing-its-own-element', 'chainables/io.py',
+       '      _ = self._draw()\n    return self._draw()', '      _ = self._draw()\n    self._index += 1\n    return next(self._it)'),
+    B('data-iterator-counts-own-element-twice', 'chainables/io.py',
+      '      _ = self._draw()\n    return self._draw()', '      _ = self._draw()\n    self._index += 1\n    return self._draw()', 'R-C09-4'),
     B('getitem-last-hit-fast-path', 'utils/iter_utils.py',
       '    multi_idx = self._index(index)\n    try:\n      return self._sequences[multi_idx.seq_idx][multi_idx.idx]',
       '    seq_idx, seq_start, seq_stop = getattr(self, "_last_hit", (0, 0, 0))\n    if 0 <= index < seq_stop:\n      multi_idx = _MergedSequenceIndex(seq_idx, index - seq_start)\n    else:\n      multi_idx = self._index(index)\n    self._last_hit = (multi_idx.seq_idx, *self._seq_idxs[multi_idx.seq_idx : multi_idx.seq_idx + 2])\n    try:\n      return self._sequences[multi_idx.seq_idx][multi_idx.idx]',
